@@ -21,3 +21,4 @@ open GV.ArgHash
 #print axioms C17b_unsort_convert
 #print axioms C17b_fiber
 #print axioms C17b_koala_root
+#print axioms C17b_friSpec_iff
